@@ -2,6 +2,7 @@ import IpcModel.Frag
 import IpcModel.Cmsg
 import IpcModel.Wire
 import IpcModel.SideTable
+import IpcModel.Router
 /-! Line-protocol driver: one request per line on stdin, one canonical answer per line on stdout.
 Imports model files only (no Mathlib/Std), so it links as a native executable. -/
 open Frag
@@ -256,6 +257,36 @@ def cmdSide (toks : List String) : String :=
       s!"res={",".intercalate (rs.map b)} inner={",".intercalate (eff.results.map b)} msgs={";".intercalate (grouped.map msgText)}"
   | _ => "bad-request"
 
+/-! ### router scripts (C07 / C17) -/
+def parseRouterOp : List String → Option Router.Op
+  | ["add", r] => r.toNat?.map .addRoute
+  | ["send", r, t] => match r.toNat?, t.toNat? with | some a, some b => some (.send a b) | _, _ => none
+  | ["drop", r] => r.toNat?.map .dropSender
+  | ["shutdown"] => some .shutdown
+  | ["dropproxy"] => some .dropProxy
+  | _ => none
+
+def cmdRouter (toks : List String) : String :=
+  match splitBar toks with
+  | hdr :: opsT =>
+    let legacy := (kv hdr "legacy").getD "0" = "1"
+    let V := if legacy then Router.legacy else Router.fixed
+    match (opsT.filter (· ≠ [])).mapM parseRouterOp with
+    | none => "bad-request"
+    | some ops =>
+      let w := Router.World.run V ops
+      let nroutes := (ops.filter fun o => match o with | .addRoute _ => true | _ => false).length
+      let per := (List.range nroutes).map fun r =>
+        let items := w.st.log.filterMap fun e => match e with
+          | .invoke x t => if x = r then some s!"i{t}" else none
+          | .dropH x => if x = r then some "D" else none
+          | _ => none
+        let items := if w.refused.contains r then items ++ ["D"] else items
+        s!"r{r}={if items.isEmpty then "-" else ",".intercalate items}"
+      let panic := if w.st.log.contains .panic then 1 else 0
+      s!"{" ".intercalate per} panic={panic}"
+  | _ => "bad-request"
+
 /-- all fault patterns (ENOBUFS or not) of length k, as numbers 0 .. 2^k-1 -/
 def patOf (k m : Nat) : List Fault := (List.range k).map fun i => if (m >>> i) % 2 = 1 then .enobufs else .none
 
@@ -284,6 +315,8 @@ def answer (line : String) : String :=
   | "recv" :: rest => cmdRecv rest
   | "searchfrag" :: rest => cmdSearchFrag rest
   | "side" :: rest => cmdSide rest
+  | "router" :: rest => cmdRouter rest
+  | "noop" :: _ => "ok"
   | "enc" :: rest => cmdEnc rest
   | "rt" :: rest => cmdRt rest
   | "dec" :: rest => cmdDec false rest
